@@ -42,6 +42,17 @@ def untouched(eng, st, c):
     return z3.And(PM._call_untouched(a, a0, c), _tagnone(eng, st)[c] == _tagnone(eng, st.old)[c])
 
 
+@R.spec
+def OTHER_CALLS_SAME(eng, st, record):
+    """frame: a call that belongs to another record keeps every field"""
+    r = to_z3(record)
+    a, a0 = _arrs(eng, st), _arrs(eng, st.old)
+    owner = eng.heap_arr(st, "Call.rec", z3.IntSort())
+    n = z3.Int(fresh_name("n"))
+    return forall_pat([n], z3.Implies(owner[n] != r, z3.And(PM._call_untouched(a, a0, n), _tagnone(eng, st)[n] == _tagnone(eng, st.old)[n])),
+                      [a["gt"][n], a["ph"][n], _tagnone(eng, st)[n], owner[n]])
+
+
 _IS_TARGET = "exists(s, 0 <= s and s < %s and samples[s] == j)"
 _POST = ("forall(j, implies(0 <= j and j < len(record.calls), "
          "ite(" + _IS_TARGET + ", target_done(record.calls[j], record), untouched(record.calls[j]))))")
@@ -55,9 +66,9 @@ R.contract(
         ("samples-distinct", "forall(s, s2, implies(0 <= s and s < s2 and s2 < len(samples), samples[s] != samples[s2]))"),
         ("not-written-yet", "not record.frozen"),
     ],
-    ensures=[("old-phase-removed-for-targets-only", _POST % "len(samples)")],
+    ensures=[("old-phase-removed-for-targets-only", _POST % "len(samples)"), ("calls-of-other-records-untouched", "OTHER_CALLS_SAME(record)")],
     modifies=["Call.gt", "Call.gt_none", "Call.ph", "Call.tag_none"],
-    loops={0: dict(index="si", modifies=["Call.gt", "Call.gt_none", "Call.ph", "Call.tag_none"], inv=[("progress", _POST % "si")])},
+    loops={0: dict(index="si", modifies=["Call.gt", "Call.gt_none", "Call.ph", "Call.tag_none"], inv=[("progress", _POST % "si"), ("others", "OTHER_CALLS_SAME(record)")])},
     props=["C09", "C04"])
 
 
@@ -71,6 +82,19 @@ def canary():
 R.canaries.append(("vcf.py:canary#all-samples-unphased", canary))
 
 
+@R.spec
+def ONLY_THIS_CALL(eng, st, call):
+    """frame: the fields of every other call are as before"""
+    c = to_z3(call)
+    n = z3.Int(fresh_name("n"))
+    A, I, B = z3.ArraySort, z3.IntSort(), z3.BoolSort()
+    eqs = []
+    for key, srt in (("Call.gt#arr", A(I, PM.OPTINT.dt)), ("Call.gt#len", I), ("Call.gt_none", B), ("Call.ph#dom", A(I, B)), ("Call.tag_none#dom", A(I, B)),
+                     ("Call.tag_int#dom", A(I, B)), ("Call.tag_int#map", A(I, I)), ("Call.tag_list#dom", A(I, B)), ("Call.tag_list#map", A(I, I))):
+        eqs.append(eng.heap_arr(st, key, srt)[n] == eng.heap_arr(st.old, key, srt)[n])
+    return z3.ForAll([n], z3.Implies(n != c, z3.And(*eqs)))
+
+
 # ---- PhasedVcfWriter._set_PS (C03: the phase set id written is component + 1; C09: GT carries the haplotype alleles in order, every allele after
 # the first is marked phased)
 R.contract(
@@ -82,6 +106,8 @@ R.contract(
         ("gt-is-the-phase-in-order", "len(call.gt) == len(phase) and forall(i, implies(0 <= i and i < len(phase), call.gt[i] == phase[i])) and not call.gt_none"),
         ("all-alleles-phased", "forall(i, implies(1 <= i, i in call.ph))"),
         ("hs-only-when-given", "implies(haploid_component is None or len(haploid_component) == 0, forall(t, (t in call.tag_list) == old(t in call.tag_list)))"),
+        ("other-tags-as-before", "forall(t, implies(t != tag('PS') and t != tag('HS'), (t in call.tag_none) == old(t in call.tag_none)))"),
+        ("only-this-call", "ONLY_THIS_CALL(call)"),
     ],
     modifies=["Call.gt", "Call.gt_none", "Call.ph", "Call.tag_none", "Call.tag_int", "Call.tag_list"],
     extra={"assume_asserts": [0]},
